@@ -32,7 +32,7 @@ FEATS_ALL = dict(
     grids=["4x6h", "12x2h", "3xd_spring", "12h_partial", "4x6h_d", "4x6h_cet"],
     price_pairs=S.PRICE_PAIRS[:1],
     bases=["one", "two"],
-    extras=["mc", "ob", "dem", "plant", "chp", "chpml", "linked"],
+    extras=["mc", "ob", "dem", "plant", "chp", "chpml", "linked", "loop", "mcsame"],
     modes=["mono", "split:12h"],
     caps=1, extra_costs=1, wacc=1, window=1, takes=1,
     freq=["12h"], periodicity=[("12h", None), ("12h", "d")],
